@@ -21,6 +21,10 @@ CONSTANTS KINDS, DIRS,      \* sets of modes / directions covered by this run
                             \*          "e" encryptor / "d" decryptor fed the encryptor's output (C01, C09)
                             \*          "r" created by importing the exported state of "a" (C09)
                             \*          "c" created by cloning "a"; continues on another data stream (C16)
+                            \*          "b" twin of "a", one block at a time, whose input differs from a's in exactly
+                            \*              one unit J (chosen in Init from PERT) - error propagation (C15)
+                            \*          "u" twin of "a" in the OTHER direction on the same input (OFB: one function, C14)
+          PERT,             \* candidate indices of the perturbed unit for "b"
           PROP              \* property id written into the replay records
 VARIABLES objs, last, ks, ksbad, dbg, fin, ist, sch, pend, kd
 
@@ -34,18 +38,21 @@ vars == <<objs, last, ks, ksbad, dbg, fin, ist, sch, pend, kd>>
 
 Kind == kd[1]
 Dir  == kd[2]
-DirOf(o) == IF o = "e" THEN "enc" ELSE IF o = "d" THEN "dec" ELSE Dir
+Other(d) == IF d = "enc" THEN "dec" ELSE "enc"
+DirOf(o) == IF o = "e" THEN "enc" ELSE IF o = "d" THEN "dec" ELSE IF o = "u" THEN Other(Dir) ELSE Dir
+PertJ == kd[3]
 Derived == {"r", "c"}                 \* objects that come into being by an action, not in Init
 Unit == IF Kind = "cfb8" THEN 1 ELSE BS
 IvLen == IF Kind = "ige" THEN 2 * BS ELSE BS
 IV0  == VBlk("iv", 1, IvLen)
-WidthOf(o) == IF o = "s" THEN 1 ELSE W
+WidthOf(o) == IF o \in {"s", "b"} THEN 1 ELSE W
 FacName(w) == "toy/" \o ToString(BS) \o "/" \o ToString(w)
 
 Init ==
-  /\ kd \in KINDS \X DIRS
+  /\ kd \in KINDS \X DIRS \X (IF "b" \in OBJS THEN PERT ELSE {0})
   /\ objs = [o \in OBJS \ Derived |->
-               NewObj(kd[1], IF o = "e" THEN "enc" ELSE IF o = "d" THEN "dec" ELSE kd[2], 1, WidthOf(o), BS,
+               NewObj(kd[1], IF o = "e" THEN "enc" ELSE IF o = "d" THEN "dec"
+                             ELSE IF o = "u" THEN (IF kd[2] = "enc" THEN "dec" ELSE "enc") ELSE kd[2], 1, WidthOf(o), BS,
                       IF kd[1] = "cfb8" THEN 1 ELSE BS, "toy",
                       VBlk("iv", 1, IF kd[1] = "ige" THEN 2 * BS ELSE BS), "inner", "", -1, "live")]
   /\ last = NoLast /\ ks = EmptyFn /\ ksbad = {} /\ dbg = EmptyFn /\ fin = FALSE
@@ -63,6 +70,8 @@ DataFor(o, k) ==
   CASE o = "d" -> SubSeq(objs["e"].out, off + 1, off + k * Unit)
     [] o = "c" -> VBlk("y", off + 1, k * Unit)
     [] o = "r" -> VBlk("x", objs["r"].fromN + off + 1, k * Unit)
+    [] o = "b" -> [j \in 1..(k * Unit) |->      \* unit PertJ carries other data ("z"), everything else is a's input
+                     IF ((off + j - 1) \div Unit) + 1 = PertJ THEN V("z", off + j) ELSE V("x", off + j)]
     [] OTHER -> VBlk("x", off + 1, k * Unit)
 Total(o) == IF o = "r" THEN objs["r"].fromN + Len(objs["r"].inp) ELSE Len(objs[o].inp)
 
@@ -122,8 +131,10 @@ ActR   == "r" \in OBJS /\ CallIp("r") /\ Frame
 ActC   == "c" \in OBJS /\ CallIp("c") /\ Frame
 ActImp == DoImport /\ Frame
 ActCln == DoClone /\ Frame
+ActB   == "b" \in OBJS /\ CallSingle("b") /\ Frame
+ActU   == "u" \in OBJS /\ CallIp("u") /\ Frame
 
-Next == ActA \/ ActS \/ ActP \/ ActQ \/ ActExp \/ ActE \/ ActD \/ ActR \/ ActC \/ ActImp \/ ActCln
+Next == ActB \/ ActU \/ ActA \/ ActS \/ ActP \/ ActQ \/ ActExp \/ ActE \/ ActD \/ ActR \/ ActC \/ ActImp \/ ActCln
 
 Spec == Init /\ [][Next]_vars
 
@@ -131,12 +142,16 @@ Spec == Init /\ [][Next]_vars
 NoJunk == \A o \in DOMAIN objs : NoJunkIn(objs[o].out) /\ \A i \in 1..Len(objs[o].exps) : NoJunkIn(objs[o].exps[i].v)
 
 NewCmd(o) == [op |-> "new", o |-> o, fac |-> FacName(WidthOf(o)), kind |-> Kind, dir |-> DirOf(o), key |-> 0,
-              iv |-> [rand |-> 0], src |-> IF o = "d" THEN [out |-> "e"] ELSE [rand |-> 0], via |-> "inner"]
+              iv |-> [rand |-> 0],
+              src |-> IF o = "d" THEN [out |-> "e"]
+                      ELSE IF o = "b" THEN [xor |-> [rand |-> 0], at |-> (PertJ - 1) * Unit, delta |-> [j \in 1..Unit |-> 1 + (j % 7)]]
+                      ELSE [rand |-> 0],
+              via |-> "inner"]
 RECURSIVE CatAll(_, _)
 CatAll(S, f) == IF S = {} THEN <<>> ELSE LET o == CHOOSE x \in S : TRUE IN f[o] \o CatAll(S \ {o}, f)
 (* per-object call lists (objects are independent, so their interleaving is not part of the state); the     *)
 (* encryptor's calls come before the decryptor's, an import / clone sits at its place in the origin's list   *)
-Ordered == <<"e", "d", "a", "s", "p", "q", "r", "c">>
+Ordered == <<"e", "d", "a", "s", "b", "u", "p", "q", "r", "c">>
 RECURSIVE CatSeq(_, _, _)
 CatSeq(f, order, i) == IF i > Len(order) THEN <<>>
                        ELSE (IF order[i] \in DOMAIN f THEN f[order[i]] ELSE <<>>) \o CatSeq(f, order, i + 1)
